@@ -94,7 +94,8 @@ func (g *gen) mutate(label string) bool {
 
 // wrongKind returns a JSON value of some other kind.
 func (g *gen) wrongKind() string {
-	return rapid.SampledFrom([]string{`null`, `true`, `"x"`, `5`, `{}`, `[]`, `{"a":1,"b":2}`, `[[]]`, `"1"`, `false`, `[null]`, `{"type":"Point"}`}).Draw(g.t, "wrongkind")
+	return rapid.SampledFrom([]string{`null`, `true`, `"x"`, `5`, `{}`, `[]`, `{"a":1,"b":2}`, `[[]]`, `"1"`, `false`, `[null]`, `{"type":"Point"}`,
+		`{"a":[1,2],"b":[3,4]}`, `{"a":[[0,0],[1,0],[1,1],[0,0]]}`, `{"a":[[1,2],[3,4]],"b":[[5,6],[7,8]]}`, `{"0":[0,0],"1":[1,1],"2":[2,0],"3":[0,0]}`}).Draw(g.t, "wrongkind")
 }
 
 func (g *gen) position(dims int, allowNull bool) string {
